@@ -475,6 +475,34 @@ def gen_C08(rng, tier):
             p.add('obs %s' % t)
         p.tag('wild' if wild else 'history')
         progs.append(p)
+    # the same graph back-propagated again and again, with resets of leaves / interior tensors / the root in between:
+    # edges look their target's context up at walk time, so a reset tensor is seen with its new context by the next walk
+    for i in range(cnt // 3):
+        p = Prog('c08_r%d' % i)
+        shape = rand_shape(rng, 2, 2, 0)
+        n = prod(shape)
+        leaves = [p.tensor(shape, [rng.uniform(0.5, 1.5) for _ in range(n)], tracked=rng.random() < 0.8) for _ in range(2)]
+        nodes = list(leaves)
+        for j in range(rng.randint(2, 7)):
+            a, b = rng.choice(nodes), rng.choice(nodes)
+            k = rng.random()
+            if k < 0.35: r = p.bind('%s %s' % (rng.choice(['sin', 'cos', 'tanh', 'exp']), a))
+            elif k < 0.5: r = p.bind('scale %s %s' % (a, f2b(rng.choice([2.0, -1.0, 0.5]))))
+            elif k < 0.9: r = p.bind('%s %s %s' % (rng.choice(['add', 'sub', 'mul']), a, b))
+            else:
+                kc = p.tensor(shape, [rng.uniform(-1.5, 1.5) for _ in range(n)])
+                r = p.bind('%s %s %s' % (rng.choice(['elmax', 'elmin']), a, kc))
+            nodes.append(r)
+        roots = [nodes[-1]] + ([rng.choice(nodes[2:])] if len(nodes) > 3 else [])
+        p.add('bp %s' % roots[0])
+        for t in nodes: p.add('obs %s' % t)
+        for rd in range(rng.randint(1, 4)):
+            for _ in range(rng.randint(0, 2)):
+                p.add('reset %s %d' % (rng.choice(nodes), rng.randint(0, 1)))
+            p.add('bp %s' % rng.choice(roots))
+            for t in nodes: p.add('obs %s' % t)
+        p.tag('repeated-bp-with-resets')
+        progs.append(p)
     return progs
 
 
